@@ -2,11 +2,12 @@
    not the early return) do the hypotheses of the universal path theorem hold
    (LoopHierApplic.walk_pre_rot), and is the rotation the theorem speaks about - the level's dictionary
    rotated with these arguments and written back - the hierarchy the implementation produced?
-   1 yes, 0 no, 2 not a plain rotation (several headers or the early return). *)
+   1 yes, 0 no, 2 several headers, 3 the early return (only a back edge is declared) and the hypotheses
+   of BeOnly.early_return_keeps_walks hold and its hierarchy is the one the implementation produced. *)
 From Coq Require Import List ZArith Bool.
 Import ListNotations.
 From V Require Import Valid.Hier Model.Graph Model.Edits Model.Edits2 Model.LoopEdit Model.Extract Model.CbHier
-     Model.LoopHier Model.LoopHierApplic.
+     Model.LoopHier Model.LoopHierApplic Model.Applic Model.Total2.
 Local Open Scope Z_scope.
 
 Record rotargs := mkRA { ra_hd : name; ra_exits : list name; ra_todo : list name; ra_isback : name -> name -> bool;
@@ -44,6 +45,38 @@ Definition rot_args (g1 : egraph) (loop headers exiting exits : list name)
 
 Definition TOP : name := -1.
 
+(* the early return: the block whose back edge is declared *)
+Definition early_block (g1 : egraph) (loop headers exiting : list name) : option name :=
+  match headers with
+  | [hd] =>
+    let sloop := zsort loop in
+    let backedge_blocks := filter (fun x => match efind g1 x with
+                                            | Some b => existsb (fun t => zmem t headers) (ejts b)
+                                            | None => false end) sloop in
+    match backedge_blocks, exiting with
+    | [bb], [xb] => if Z.eqb bb xb then Some bb else None
+    | _, _ => None
+    end
+  | _ => None
+  end.
+
+Definition early_col (h ha : hier) (lvl : name) (g1 : egraph) (hd bb : name) : Z :=
+  match find h lvl, dpop g1 bb with
+  | Some nl, Some (b, g2) =>
+    match declare_backedge b hd with
+    | Some b1 =>
+      let g' := dset g2 bb b1 in
+      let h' := write_back h lvl g' in
+      if is_region nl && nodupb (ekeys g') && is_none (efind g1 lvl) &&
+         forallb (fun n => is_region n || forallb (resolves h) (n_jt n)) h &&
+         Nat.eqb (length h') (length ha) &&
+         forallb (fun n => match find ha (n_name n) with Some m => xnode_eqb n m | None => false end) h'
+      then 3 else 0
+    | None => 0
+    end
+  | _, _ => 0
+  end.
+
 Definition rot_col (rows : list (list Z)) : Z :=
   let '(br, ar, op, st, dm) := split_lh rows in
   match decode br, op with
@@ -65,7 +98,11 @@ Definition rot_col (rows : list (list Z)) : Z :=
                   match level_graph h lvl with
                   | Some g1 =>
                     match rot_args g1 loop headers exiting exits dm bnames vnames with
-                    | None => 2
+                    | None =>
+                      match early_block g1 loop headers exiting, headers, decode ar with
+                      | Some bb, [hd], Some (_, ha) => early_col h ha lvl g1 hd bb
+                      | _, _, _ => 2
+                      end
                     | Some a =>
                       if walk_pre_rot h lvl TOP (ra_hd a) (ra_exits a) (ra_todo a) (ra_isback a) (ra_latch a) (ra_sexit a)
                                       (ra_ev a) (ra_bv a) (ra_names a) then
